@@ -85,7 +85,7 @@ def one_program(src, vecs, decline=None, local_args_unknown=False):
         an = L.analyze(prog, res)
     except L.Diverged:
         return {'prog': prog, 'runs': runs, 'an': None, 'diverged': True, 'fails': [], 'log': log}
-    fails = L.judge(prog, an, runs)
+    fails = L.judge(prog, an, runs) + L.path_failures(prog, an, runs)
     return {'prog': prog, 'runs': runs, 'an': an, 'diverged': False, 'fails': fails, 'log': log}
 
 
@@ -147,6 +147,9 @@ def coq_fn_cases(cases, run):
 
 
 def describe(f):
+    if f['kind'] == 'path':
+        return ('executed transition line %s -> line %s (`%s`) is not a path of the CFG the type inference walked' % (
+            f.get('from_line'), f['line'], f['text']))
     return '%s `%s` (line %s): reported %s, run-time value has type %s' % (
         {'name': 'name', 'expression': 'expression', 'closure': 'closure types'}[f['kind']], f['text'], f['line'],
         '{' + ', '.join(f['reported']) + '}', f['runtime'])
@@ -177,6 +180,8 @@ def check(run):
         c = rnd.random()
         if c < 0.08:
             opts, stream, dec = L.GOpts(untyped=False, nested=False, loopmut=True, max_stmts=6), 'loop-join', None
+        elif c < 0.16:
+            opts, stream, dec = L.GOpts(untyped=False, nested=False, loopelse=True, max_stmts=6), 'loop-else', None
         elif c < 0.45:
             opts, stream, dec = L.GOpts(untyped=False, nested=False), 'typed', None
         elif c < 0.65:
@@ -356,9 +361,13 @@ def replay(path):
     bad = 0
     nrep = int(fl.get('repetitions') or 1)     # order-dependent results: analysed on several fresh parses
     for k in range(nrep):
-        r = one_program(src, ast.literal_eval(vecs) if isinstance(vecs, str) else vecs,
-                        decline=(lambda kind: kind in kinds) if kinds else None,
-                        local_args_unknown=bool(fl.get('local_args_unknown')))
+        try:
+            r = one_program(src, ast.literal_eval(vecs) if isinstance(vecs, str) else vecs,
+                            decline=(lambda kind: kind in kinds) if kinds else None,
+                            local_args_unknown=bool(fl.get('local_args_unknown')))
+        except Exception as e:   # noqa
+            print('FAIL the analysis raised %s: %s' % (type(e).__name__, str(e)[:200]))
+            return 1
         if r['diverged']:
             print('type inference did not reach a fixed point')
             return 1
